@@ -633,6 +633,27 @@ func runC07(r *run) {
 				}
 			}
 		}
+		// equality of floats is equality of the doubles (no tolerance); list literals are built from
+		// their elements' current values every time they are evaluated
+		for _, src := range []string{"0.1 + 0.2 == 0.3", "0.1 + 0.2 > 0.3", "1.1 * 1.1 == 1.21", "1.0000000001 == 1.0", "0.5 + 0.25 == 0.75", "0.1 + 0.2 != 0.3", "0.3 in [0.1 + 0.2]", "0.75 in [0.5 + 0.25]",
+			"1.5 * 3 == 4.5", "2.0 / 3 * 3 == 2.0", "10.75 - 0.75 == 10", "0.1 * 3 == 0.3", "100.0 * 1.1 == 110.0"} {
+			emit(caseT{"render", w.args("{% autoescape off %}{{ "+src+" }}{% endautoescape %}|{% if "+src+" %}T{% else %}F{% endif %}", ctx)})
+		}
+		for _, src := range []string{"{% for i in l %}{{ 3 in [i, 0] }},{{ i in [1, i] }},{{ [i, 2]|length }};{% endfor %}", "{% for i in l %}{% for j in l %}{{ j in [i, 2] }}{% endfor %}|{% endfor %}",
+			"{% for i in l %}{{ [i, 2]|join:\"-\" }} {{ [a, i, \"x\"]|join:\"\" }};{% endfor %}", "{% with q=1 %}{{ 1 in [q, 5] }}{% endwith %}{% with q=7 %}{{ 1 in [q, 5] }}{% endwith %}"} {
+			emit(caseT{"render", w.args("{% autoescape off %}"+src+"{% endautoescape %}", ctx)})
+		}
+		// the property puts the unary operators above * / %: `not a * b` read as (not a) * b.
+		// (recorded finding: pongo2 reads it as not (a * b); attributed below)
+		for _, a := range []string{"0", "1", "2", "z", "a", "n"} {
+			for _, b := range []string{"0", "1", "5", "z", "a"} {
+				for _, op := range []string{"*", "/", "%"} {
+					for _, neg := range []string{"not ", "!", "-", "+"} {
+						emit(caseT{"unaryterm", []string{hx(neg + a + " " + op + " " + b), hx("(" + neg + a + ") " + op + " " + b)}})
+					}
+				}
+			}
+		}
 		// integer literals written with leading zeros are decimal
 		for _, l := range []string{"010", "0100", "017", "008", "009", "00", "007", "0010", "01", "0777"} {
 			for _, tpl := range []string{"L", "L + 1", "L * 2", "L == 10", "L - a", "L % 3", "L / 2", "-L", "L ^ 2", "L < 9", "1 + L * L", "L in l", "L|add:1"} {
@@ -731,6 +752,22 @@ func execGoKinds(r *run, c caseT) {
 }
 
 func execC07(r *run, c caseT) {
+	if c.op == "unaryterm" {
+		w := &world{}
+		plain, tight := unhx(c.args[0]), unhx(c.args[1])
+		o1, _ := w.render("{{ "+plain+" }}", false, c07Ctx())
+		o2, _ := w.render("{{ "+tight+" }}", false, c07Ctx())
+		id := r.emit(c.op, c.args, o1.obs+"/"+o2.obs)
+		r.nontrivial(c.args[0])
+		if o1.obs != o2.obs {
+			what := "a unary operator does not bind tighter than * / %"
+			if strings.HasPrefix(plain, "not ") || strings.HasPrefix(plain, "!") {
+				what = "KF:C07-not-scopes-over-term `not` / `!` negates the whole following term (not a * b is not (a * b)), where the property puts the unary operators above * / %"
+			}
+			r.reject(id, what, map[string]any{"expression": plain, "observed": o1.obs, "property_reading": tight, "gives": o2.obs})
+		}
+		return
+	}
 	if c.op == "gokinds" {
 		execGoKinds(r, c)
 		return
